@@ -56,7 +56,7 @@ func genProbe(t *rapid.T, w *world.World) world.Action {
 // bindingStep: real handshakes for several consumers, consumers that name an existing connection or chain id,
 // second handshakes after establishment, and callback probes at arbitrary moments.
 func bindingStep() func(t *rapid.T, w *world.World) world.Action {
-	base := fStep(FProfile{MaxConsumers: 3, Weights: map[string]int{"relay": 20, "staking": 3, "vmsg": 3}})
+	base := fStep(FProfile{MaxConsumers: 3, Weights: map[string]int{"relay": 20, "staking": 3, "vmsg": 3, "remove": 1}})
 	return func(t *rapid.T, w *world.World) world.Action {
 		if len(w.Agenda) == 0 {
 			switch rapid.IntRange(0, 99).Draw(t, "bind?") / 4 {
@@ -87,6 +87,19 @@ func bindingStep() func(t *rapid.T, w *world.World) world.Action {
 						w.Agenda = append(w.Agenda, world.Action{Kind: world.KBlock, Dt: 4e9})
 					}
 					w.Label("consumer-on-existing-connection")
+					// sometimes the consumer currently bound to that connection's client is stopped first: it keeps its
+					// bindings until it is deleted, and the newcomer reaches its spawn time inside that window
+					if rapid.IntRange(0, 2).Draw(t, "stopfirst") == 0 {
+						for _, id := range w.ConsumersInPhase(world.PhLaunched) {
+							if cl, ok := w.P.PApp.ProviderKeeper.GetConsumerClientId(w.P.Ctx(), id); ok && cl == conn.ClientId {
+								if owner := w.OwnerName(w.ObserveConsumer(id).Owner); owner != "" && owner != "gov" && owner != acc && !w.Busy(owner) {
+									w.Label("bound-consumer-stopped-first")
+									w.Agenda = append([]world.Action{{Kind: world.KRemoveConsumer, Sender: owner, Consumer: id}}, w.Agenda...)
+								}
+								break
+							}
+						}
+					}
 					return world.Action{Kind: world.KCreateConsumer, Sender: acc, Spec: &world.ConsumerSpec{ChainID: chainID, Metadata: "r",
 						Init: &world.InitSpec{SpawnTime: spawn, RevNumber: world.RevOf(chainID), RevHeight: 1, UnbondingSec: 1000, ConnectionID: conn.Id}}}
 				}
